@@ -1,21 +1,22 @@
-"""C07 — encoding touches exactly its bytes, each field exactly its bits."""
+"""C07 — encoding touches exactly its bytes, and each field exactly its bits.
+C half (C runtime, generated C, size constants of the three emitters): tools/cside.py;
+Python half (out-of-range integers, buffer length, decode in bounds): tools/c07_py.py."""
+import cside
 import pywire
 from c07_py import run_py_half
 
 LEVEL = "proof"
 
 
+def run_c_half(ck):
+    return cside.run_c07_c_half(ck)
+
+
 def run(ck):
-    ck.assumptions.extend(pywire.ASSUME)
-    ck.coverage["trusted_base"] = ["Coq 8.16.1 kernel + vm_compute", "tools/translate.py", "tools/run_py.py + CPython 3.12",
-                                   "no axioms (Print Assumptions: closed)"]
-    ck.coverage["rule"] = ("generated schemas x values whose integer leaves are out of range (too large, negative for unsigned, "
-                           "huge) paired with the in-range value of the same low bits; distinct = distinct (schema, value)")
-    ck.try_prove("C07.v")
+    parts = run_c_half(ck)            # proves props/C07.v (both halves) and runs the C ties
+    cside.fill_coverage(ck, parts, getattr(ck, "_c07_items", []), cside.RULE)
+    ck.assumptions.extend(a for a in pywire.ASSUME if a not in ck.assumptions)
+    ck.coverage["rule"] = (ck.coverage.get("rule") or "") + (
+        " | Python half: generated schemas x values whose integer leaves are out of range (too large, negative for "
+        "unsigned, huge) paired with the in-range value of the same low bits")
     run_py_half(ck)
-    try:
-        from c07_c import run_c_half      # provided by the C runtime module when merged
-    except ImportError:
-        run_c_half = None
-    if run_c_half:
-        run_c_half(ck)
